@@ -53,6 +53,56 @@ fn one(api: &Api, it: &InTuple, seed: u64, cx: &mut Cx) {
     cx.depth(9);
 }
 
+/// "every random tape" includes RELATED generators of the two parties: the same stream on both sides, the server's
+/// stream equal to the client's shifted by every offset in -96..=96 around the client's login start (so that every
+/// pair of random fields of the two parties coincides for some offset), and the constant generator 0x01 on both sides.
+fn related_generators(api: &Api, seed: u64, cx: &mut Cx) {
+    use crate::adapter::Blob;
+    let p = setting(0);
+    let label = format!("seed{}/c01/rel", seed);
+    let mut cases: Vec<(String, Tape, Tape, Option<i64>)> = vec![("same stream from the start".into(), Tape::new(&label), Tape::new(&label), None), ("constant 0x01 on both sides".into(), Tape::constant(1), Tape::constant(1), None)];
+    for d in -96i64..=96 {
+        cases.push((format!("server stream = client stream at login start {:+}", d), Tape::new(&label), Tape::new(&format!("{}/server", label)), Some(d)));
+    }
+    cx.context_done();
+    for (name, mut tc, mut ts, shift) in cases {
+        cx.begin_case(json!({"generators": name}));
+        if !cx.state(&("rel", &name)) {
+            continue;
+        }
+        cx.path();
+        cx.edges += 9;
+        let r = (|| -> Result<bool, (String, crate::adapter::E)> {
+            let e = |s: &str| { let s = s.to_string(); move |e| (s, e) };
+            let setup = api.setup(&mut ts).map_err(e("setup"))?;
+            let (req, creg) = api.reg_start(&mut tc, &p.pw).map_err(e("reg_start"))?;
+            let resp = api.sreg_start(&Blob::n(&setup), &Blob::n(&req), &p.cid).map_err(e("sreg_start"))?;
+            let (upload, export, _) = api.reg_finish(&mut tc, &Blob::n(&creg), &p.pw, &Blob::n(&resp), None, None, None).map_err(e("reg_finish"))?;
+            let file = api.sreg_finish(&Blob::n(&upload)).map_err(e("sreg_finish"))?;
+            if let Some(d) = shift {
+                let pos = (tc.pos as i64 + d).max(0) as usize;
+                ts = Tape::at(&label, pos);
+            }
+            let (ke1, cl) = api.login_start(&mut tc, &p.pw).map_err(e("login_start"))?;
+            let (ke2, sl) = api.slogin_start(&mut ts, &Blob::n(&setup), Some(&Blob::n(&file)), &Blob::n(&ke1), &p.cid, None, None, None).map_err(e("slogin_start"))?;
+            let (ke3, skc, export2, _) = api.login_finish(&Blob::n(&cl), &p.pw, &Blob::n(&ke2), None, None, None, None).map_err(e("login_finish"))?;
+            let sks = api.slogin_finish(&Blob::n(&sl), &Blob::n(&ke3)).map_err(e("slogin_finish"))?;
+            Ok(skc == sks && export == export2)
+        })();
+        match r {
+            Ok(true) => cx.outcome("agree"),
+            Ok(false) => {
+                cx.outcome("DISAGREE");
+                cx.violate("related-generators/keys", "keys disagree after an honest login on related generators".into());
+            }
+            Err((step, e)) => {
+                cx.outcome("STEP-FAILED");
+                cx.violate(&format!("related-generators/{}/error", step), format!("honest step {} fails with {:?} when the two parties' generators are related ({})", step, e, name));
+            }
+        }
+    }
+}
+
 pub fn run(tier: Tier, seed: u64) -> i32 {
     let t0 = Instant::now();
     let tuples = input_tuples(tier);
@@ -97,6 +147,7 @@ pub fn run(tier: Tier, seed: u64) -> i32 {
         Err(e) => cx.violate_case("history/setup", e, json!({})),
     }));
     tot.merge(fw::run_items("C01", &apis, |a| a.name().to_string(), |api, cx| super::c07::part_a(api, 0, false, seed, cx, Mode::Honest)));
+    tot.merge(fw::run_items("C01", &apis, |a| a.name().to_string(), |api, cx| related_generators(api, seed, cx)));
     let ts: Vec<super::c05::Triple> = super::c05::triples(tier);
     let mut sorted = ts.clone();
     sorted.sort_by_key(|t| fw::h128(t));
@@ -113,7 +164,7 @@ pub fn run(tier: Tier, seed: u64) -> i32 {
         tier,
         seed,
         rule: "every input tuple with <=k deviations from the default over the stated alphabets (plus the full boundary product {\"\",255,256,65535}^4 in the thorough tier) is run through the honest 9-step flow on the production build; differential oracle between client and server".into(),
-        bounds: json!({"suites": 20, "input_tuples_per_suite": tuples.len(), "deviation_bound": if tier.thorough() {3} else {2}, "histories": "all histories of registrations/logins within C16's operation bounds; the routing population of C07(a); all matched parameter triples of C05's families (incl. explicit-public-key spellings, empty vs absent context)", "ksf_families": {"identity": "all tuples", "probe": "<=1 deviation x {absent, explicit default, id 2}", "argon2": "default tuple x {absent, explicit default, cost 1} on 3 suites"}}),
+        bounds: json!({"suites": 20, "input_tuples_per_suite": tuples.len(), "deviation_bound": if tier.thorough() {3} else {2}, "histories": "all histories of registrations/logins within C16's operation bounds; the routing population of C07(a); all matched parameter triples of C05's families (incl. explicit-public-key spellings, empty vs absent context)", "related_generators": "same stream on both sides; server stream = client stream shifted by -96..=96 at login start; constant 0x01 on both sides", "ksf_families": {"identity": "all tuples", "probe": "<=1 deviation x {absent, explicit default, id 2}", "argon2": "default tuple x {absent, explicit default, cost 1} on 3 suites"}}),
         assumptions: vec![],
         exhaustive: true,
         crosscheck: json!(null),
